@@ -92,18 +92,23 @@ func c10Secretbox(c *ev.Collector, rt *rapid.T, msg []byte) (string, error) {
 	prefix, pc := c10Prefix(rt, "out", len(msg)+secretbox.Overhead)
 	pcopy := append([]byte{}, prefix...)
 	k, n := key, nonce
-	m := append([]byte{}, msg...)
+	mIn := drawIn(rt, "msgbuf", msg)
+	m := mIn.s
 	got := secretbox.Seal(prefix, m, &n, &k)
 	if err := c10Append(fmt.Sprintf("secretbox.Seal(len=%d, nonce=%x, key=%x)", len(msg), nonce, key), prefix, pcopy, got, want); err != nil {
 		return pc, err
 	}
-	if !bytes.Equal(m, msg) || k != key || n != nonce {
-		return pc, fmt.Errorf("secretbox.Seal modified an input")
+	if !mIn.intact() || k != key || n != nonce {
+		return pc, fmt.Errorf("secretbox.Seal modified an input (or the spare capacity behind the message)")
 	}
 	// open a box made by the other implementation
 	prefix2, pc2 := c10Prefix(rt, "out2", len(msg))
 	p2copy := append([]byte{}, prefix2...)
-	opened, ok := secretbox.Open(prefix2, append([]byte{}, want...), &n, &k)
+	boxIn := drawIn(rt, "boxbuf", want)
+	opened, ok := secretbox.Open(prefix2, boxIn.s, &n, &k)
+	if !boxIn.intact() {
+		return pc, fmt.Errorf("secretbox.Open modified its input box (or the spare capacity behind it)")
+	}
 	if !ok {
 		return pc, fmt.Errorf("secretbox.Open rejected a valid crypto_secretbox_easy value (len=%d, nonce=%x, key=%x)", len(msg), nonce, key)
 	}
@@ -232,7 +237,11 @@ func c10Box(c *ev.Collector, rt *rapid.T, msg []byte) (string, error) {
 	prefix, pc := c10Prefix(rt, "out", len(msg)+box.Overhead)
 	pcopy := append([]byte{}, prefix...)
 	n := nonce
-	got := box.Seal(prefix, append([]byte{}, msg...), &n, &p, &s)
+	mIn := drawIn(rt, "msgbuf", msg)
+	got := box.Seal(prefix, mIn.s, &n, &p, &s)
+	if !mIn.intact() {
+		return peerClass, fmt.Errorf("box.Seal modified its message (or the spare capacity behind it)")
+	}
 	if err := c10Append(fmt.Sprintf("box.Seal(len=%d, nonce=%x, peer=%x, priv=%x)", len(msg), nonce, pkB, skA), prefix, pcopy, got, want); err != nil {
 		return peerClass, err
 	}
@@ -287,7 +296,11 @@ func c10Anonymous(c *ev.Collector, rt *rapid.T, msg []byte) (string, error) {
 	pcopy := append([]byte{}, prefix...)
 	rd := &fixedReader{append([]byte{}, esk[:]...)}
 	p := pk
-	got, err := box.SealAnonymous(prefix, append([]byte{}, msg...), &p, rd)
+	mIn := drawIn(rt, "msgbuf", msg)
+	got, err := box.SealAnonymous(prefix, mIn.s, &p, rd)
+	if !mIn.intact() {
+		return class, fmt.Errorf("box.SealAnonymous modified its message (or the spare capacity behind it)")
+	}
 	if err != nil {
 		return class, fmt.Errorf("box.SealAnonymous(len=%d) error %v", len(msg), err)
 	}
@@ -315,7 +328,11 @@ func c10Anonymous(c *ev.Collector, rt *rapid.T, msg []byte) (string, error) {
 	}
 	prefix2, pc2 := c10Prefix(rt, "out2", len(msg))
 	p2copy := append([]byte{}, prefix2...)
-	opened, ok := box.OpenAnonymous(prefix2, other, &p, &sk)
+	otherIn := drawIn(rt, "boxbuf", other)
+	opened, ok := box.OpenAnonymous(prefix2, otherIn.s, &p, &sk)
+	if !otherIn.intact() {
+		return class, fmt.Errorf("box.OpenAnonymous modified its input box (or the spare capacity behind it)")
+	}
 	if !ok {
 		return class, fmt.Errorf("box.OpenAnonymous rejected a valid crypto_box_seal value (len=%d, recipient sk=%x, ephemeral sk=%x)", len(msg), sk, esk2)
 	}
@@ -359,7 +376,11 @@ func c10Sign(c *ev.Collector, rt *rapid.T, msg []byte) (string, error) {
 	prefix, pc := c10Prefix(rt, "out", len(msg)+sign.Overhead)
 	pcopy := append([]byte{}, prefix...)
 	pr := priv
-	got := sign.Sign(prefix, append([]byte{}, msg...), &pr)
+	mIn := drawIn(rt, "msgbuf", msg)
+	got := sign.Sign(prefix, mIn.s, &pr)
+	if !mIn.intact() {
+		return pc, fmt.Errorf("sign.Sign modified its message (or the spare capacity behind it)")
+	}
 	if err := c10Append(fmt.Sprintf("sign.Sign(len=%d, seed=%x)", len(msg), seed), prefix, pcopy, got, want); err != nil {
 		return pc, err
 	}
@@ -368,7 +389,11 @@ func c10Sign(c *ev.Collector, rt *rapid.T, msg []byte) (string, error) {
 	}
 	prefix2, pc2 := c10Prefix(rt, "out2", len(msg))
 	p2copy := append([]byte{}, prefix2...)
-	opened, ok := sign.Open(prefix2, append([]byte{}, want...), &pub)
+	smIn := drawIn(rt, "smbuf", want)
+	opened, ok := sign.Open(prefix2, smIn.s, &pub)
+	if !smIn.intact() {
+		return pc, fmt.Errorf("sign.Open modified its input (or the spare capacity behind it)")
+	}
 	if !ok {
 		return pc, fmt.Errorf("sign.Open rejected a valid crypto_sign value (len=%d, seed=%x)", len(msg), seed)
 	}
@@ -395,7 +420,11 @@ func c10Auth(c *ev.Collector, rt *rapid.T, msg []byte) (string, error) {
 		}
 	}
 	k := key
-	got := auth.Sum(append([]byte{}, msg...), &k)
+	mIn := drawIn(rt, "msgbuf", msg)
+	got := auth.Sum(mIn.s, &k)
+	if !mIn.intact() {
+		return kc, fmt.Errorf("auth.Sum modified its message (or the spare capacity behind it)")
+	}
 	if got == nil || *got != want {
 		return kc, fmt.Errorf("auth.Sum(len=%d, key=%x) = %x, crypto_auth gives %x", len(msg), key, got, want)
 	}
